@@ -46,6 +46,11 @@ def Op.isRW : Op → Bool
   | .read .. | .readBatch .. | .write .. | .writeBatch .. => true
   | _ => false
 
+/-- op is a `write` / `write_batch` call -/
+def Op.isWrite : Op → Bool
+  | .write .. | .writeBatch .. => true
+  | _ => false
+
 /-- every register is used in a direction it supports (otherwise the call is a `KeyError`) -/
 def Op.dirsOK : Op → Bool
   | .read r _ => r.canRead
@@ -655,5 +660,54 @@ theorem writeBatch_ok_pending (cfg : Cfg) (hf : Fixed cfg) (s : State) (rs : Lis
   simp only [step, hd, Bool.false_eq_true, if_false]
   rcases hst with hst | hst <;> simp only [hst] <;>
     simp [flush, success, flushGo_all_ok cfg hf _ _ _ _ hfl]
+
+/-- when no attempted flush write failed, nothing stays buffered (repaired code) -/
+theorem flushGo_no_fail (cfg : Cfg) (hf : Fixed cfg) (exc : List RegId) (items : List (RegId × Val)) :
+    ∀ (fl : List Bool) (hw : Map), (flushGo cfg exc items fl hw).failed = false →
+      (flushGo cfg exc items fl hw).kept = [] := by
+  induction items with
+  | nil => intro fl hw _; simp [flushGo]
+  | cons it rest ih =>
+    intro fl hw
+    obtain ⟨k0, v0⟩ := it
+    simp only [flushGo]
+    split
+    · simp only [hf.1, Bool.false_eq_true, if_false]; exact ih fl hw
+    · split
+      · simp
+      · exact ih _ _
+
+/-- a `write` / `write_batch` that reached the hardware and whose calls (main call and every flush write
+    that was attempted) all succeeded leaves nothing buffered -/
+theorem step_ok_pending (cfg : Cfg) (hf : Fixed cfg) (s : State) (op : Op)
+    (hc : (step cfg s op).2.contact = some true) (hff : (step cfg s op).2.flushFail = false)
+    (hw : op.isWrite = true) :
+    (step cfg s op).1.pending = [] := by
+  cases op with
+  | write r w ok fl =>
+    by_cases hd : r.canWrite = true
+    · cases hst : s.st <;> simp only [step, hd, hst, Bool.not_true, Bool.false_eq_true, if_false] at hc hff ⊢ <;>
+        try (simp at hc)
+      all_goals
+        cases hn : needsWrite cfg s.lsw (r, w) <;> simp only [hn, Bool.not_false, Bool.not_true, if_true,
+          Bool.false_eq_true, if_false] at hc hff ⊢ <;> try (simp at hc)
+        cases ok <;> simp only [Bool.false_eq_true, if_false, if_true] at hc hff ⊢ <;> try (simp at hc)
+        simp only [flushFailed, flush, success] at hff ⊢
+        simp at hff ⊢
+        exact flushGo_no_fail cfg hf _ _ _ _ hff
+    · simp [step, hd] at hc
+  | writeBatch rs ws failAt fl =>
+    by_cases hd : (rs.any fun r => !r.canWrite) = true
+    · simp [step, hd] at hc
+    · cases hst : s.st <;> simp only [step, hd, hst, Bool.false_eq_true, if_false] at hc hff ⊢ <;>
+        try (simp at hc)
+      all_goals
+        cases failAt with
+        | some k => simp at hc
+        | none =>
+          simp only [flushFailed, flush, success] at hff ⊢
+          simp at hff ⊢
+          exact flushGo_no_fail cfg hf _ _ _ _ hff
+  | _ => simp [Op.isWrite] at hw
 
 end OPM.HwRecovery
